@@ -237,6 +237,7 @@ pub fn scenarios(thorough: bool) -> Vec<Scenario> {
     v.push(trio_scenario("trio", if thorough { 7 } else { 6 }));
     v.push(long_chain_scenario("pair-long-chain", if thorough { 4 } else { 3 }, &[Op::Resolve(1, 0, 0), Op::Resolve(0, 0, 1)]));
     v.push(tie_scenario("pair-tie", if thorough { 4 } else { 3 }, &[Op::Resolve(1, 0, 0), Op::Resolve(1, 0, 1)]));
+    v.push(three_leaves_scenario("trio-three-leaves", if thorough { 4 } else { 3 }, &[]));
     v.push(pair_conflict_scenario("pair-edit-hi-vs-delete", 15, 3, &[9], if thorough { 4 } else { 3 }, &[Op::Resolve(1, 0, 0), Op::Resolve(1, 1, 1)]));
     v
 }
